@@ -21,7 +21,7 @@ import json
 import numpy as np
 
 from . import common
-from .common import Driver, fields
+from .common import Driver
 from .universe import canon, veq
 
 CLAIM = dict(
@@ -685,7 +685,7 @@ def run_history(ctx, stmts, drv, label):
             model = False
         if model:
             rep = drv.ask("stmt " + " ".join(stmt_tokens(st)))
-            f = fields(rep)
+            f = dict(w.split("=", 1) for w in rep.split(" ") if "=" in w)
             if f.get("out") == "unm":
                 ctx.bump("unmodelled")
                 ctx.bump("unmodelled:" + verb)
